@@ -13,6 +13,9 @@
 //!   `seed.dpack.tpack[.pool]`): missing/`0` = this process's default pool; `<n>` = the run's commands and oracles execute
 //!   inside `ThreadPoolBuilder::num_threads(n)…install(..)` (caller = a worker of the pool); `g<n>` = they execute in a child
 //!   `vh exec` with `RAYON_NUM_THREADS=n` (global pool of n, caller outside it; op `c13 solo …` is the child side).
+//! * `c13 rest <src> <dst> <verify> <run,run,…>`: the same source backed up into repositories differing only in the pack-size
+//!   setting and RESTORED from each (real `prepare_restore` + `restore` into a temp dir) into an empty directory and over the
+//!   partly matching existing tree `dst`; oracles: identical bytes for every setting, equal to the source.
 //! * `c13 chk <delay ms>`: `check --read-data` on a repository with a missing tree and slow reads must not
 //!   panic (loader threads of an aborted `TreeStreamerOnce` still hold the index).
 use std::collections::{BTreeMap, BTreeSet};
@@ -1465,6 +1468,277 @@ fn exec_order(run: &str, src: &str) -> String {
 }
 
 // ------------------------------------------------------------------------------------------------
+// rest: RESTORE of the same source from repositories that differ only in their pack-size settings
+
+/// what a directory holds after a restore: path below the root (components joined by `/`) -> bytes of a regular file
+/// (`None`: a directory or anything else)
+type DirMap = BTreeMap<Vec<u8>, Option<Vec<u8>>>;
+
+fn dir_map(root: &std::path::Path) -> DirMap {
+    use std::os::unix::ffi::OsStrExt;
+    fn walk(dir: &std::path::Path, prefix: &[u8], out: &mut DirMap) {
+        let Ok(rd) = std::fs::read_dir(dir) else { return };
+        for e in rd.flatten() {
+            let mut p = prefix.to_vec();
+            if !p.is_empty() {
+                p.push(b'/');
+            }
+            p.extend_from_slice(e.file_name().as_bytes());
+            match std::fs::symlink_metadata(e.path()) {
+                Ok(m) if m.is_file() => _ = out.insert(p, std::fs::read(e.path()).ok()),
+                Ok(m) if m.is_dir() => {
+                    _ = out.insert(p.clone(), None);
+                    walk(&e.path(), &p, out);
+                }
+                _ => _ = out.insert(p, None),
+            }
+        }
+    }
+    let mut out = DirMap::new();
+    walk(root, &[], &mut out);
+    out
+}
+
+fn se_rel(e: &SE) -> Vec<u8> {
+    e.path.join(&b'/')
+}
+
+/// source / destination descriptions a `rest` case accepts: directories and regular files only, path components of ASCII
+/// letters and digits, whole-second mtimes, no path twice (the Lean driver checks the same)
+fn rest_valid(v: &[SE]) -> bool {
+    use crate::dispatch::c11::K;
+    let mut seen = BTreeSet::new();
+    v.iter().all(|e| {
+        matches!(e.kind, K::File | K::Dir)
+            && e.path.iter().all(|c| !c.is_empty() && c.iter().all(u8::is_ascii_alphanumeric))
+            && (0..4_000_000_000).contains(&e.mtime)
+            && seen.insert(e.path.clone())
+    })
+}
+
+/// the existing destination tree of a restore: the directories and files of `dst` (file mtimes as given, whole seconds)
+fn materialize(root: &std::path::Path, dst: &[SE]) -> Result<(), String> {
+    use crate::dispatch::c11::K;
+    use std::os::unix::ffi::OsStringExt;
+    std::fs::create_dir_all(root).map_err(|_| "err:dst-not-materializable".to_string())?;
+    for e in dst {
+        let mut p = root.to_path_buf();
+        for c in &e.path {
+            p.push(OsString::from_vec(c.clone()));
+        }
+        let ok = match e.kind {
+            K::Dir => std::fs::create_dir_all(&p).is_ok(),
+            K::File => {
+                p.parent().is_some_and(|d| std::fs::create_dir_all(d).is_ok())
+                    && std::fs::write(&p, e.bytes()).is_ok()
+                    && std::fs::File::options().write(true).open(&p).is_ok_and(|f| {
+                        f.set_modified(std::time::UNIX_EPOCH + Duration::from_secs(e.mtime as u64)).is_ok()
+                    })
+            }
+            _ => false,
+        };
+        if !ok {
+            return Err("err:dst-not-materializable".into());
+        }
+    }
+    Ok(())
+}
+
+/// the real restore of the snapshot's `src` directory into `dest` (as `harness/src/c14.rs` drives it: `ls` node streamer,
+/// `prepare_restore`, `restore`, local destination)
+fn restore_into<S: IndexedFull>(repo: &Repository<S>, snap: &SnapshotFile, dest: &std::path::Path, verify: bool) -> Result<(), String> {
+    use rustic_core::{LocalDestination, LsOptions, RestoreOptions};
+    let opts = RestoreOptions::default().verify_existing(verify).no_ownership(true);
+    std::fs::create_dir_all(dest).map_err(|_| "err:mkdir".to_string())?;
+    let ek = |e: Box<rustic_core::RusticError>| crate::util::errkind(&e);
+    let node = repo.node_from_snapshot_path(&format!("{}:src", snap.id.to_hex().as_str()), |_| true).map_err(ek)?;
+    let ls = repo.ls(&node, &LsOptions::default()).map_err(ek)?;
+    let d = LocalDestination::new(dest.to_str().ok_or("err:dest")?, true, !node.is_dir()).map_err(ek)?;
+    let plan = repo.prepare_restore(&opts, ls, &d, false).map_err(|e| format!("prepare:{}", ek(e)))?;
+    let ls = repo.ls(&node, &LsOptions::default()).map_err(ek)?;
+    repo.restore(plan, &opts, ls, &d).map_err(|e| format!("restore:{}", ek(e)))
+}
+
+/// One run of a `rest` case: fresh repository with the run's pack sizes, backup of `sa` (latencies by seed), then the real
+/// restore (a) into an empty directory and (b) over the existing tree `dst`; what the two directories hold afterwards.
+fn rest_run(sa: &[SE], dst: &[SE], verify: bool, run: Run, threads: usize, k: usize) -> Result<(DirMap, DirMap), String> {
+    let (sa2, dst2) = (sa.to_vec(), dst.to_vec());
+    let Run { seed, dsize, tsize, .. } = run;
+    let wd = run_wd(sa, Some(dst), None);
+    let res = watchdog(wd, move || -> Result<(DirMap, DirMap), String> {
+        in_pool(threads, move || {
+            let ek = |e: Box<rustic_core::RusticError>| crate::util::errkind(&e);
+            let h = DH::init(DelayBackend::new(seed, if seed == 0 { 0 } else { 1500 }), &run_cfg(dsize, tsize)).map_err(ek)?;
+            let force = BackupOptions::default().parent_opts(ParentOptions::default().force(true));
+            let repo = h.open().and_then(|r| r.to_indexed_ids()).map_err(ek)?;
+            let snap = repo.archive(&force, &SlowSource::new(sa2, seed), new_snap(), &[PathBuf::from(SRC_ROOT)]).map_err(ek)?;
+            drop(repo);
+            let tmp = tempfile::tempdir().map_err(|_| "err:tempdir".to_string())?;
+            let repo = h.open().and_then(|r| r.to_indexed()).map_err(ek)?;
+            let fresh = tmp.path().join("fresh");
+            restore_into(&repo, &snap, &fresh, verify).map_err(|e| format!("fresh:{e}"))?;
+            let over = tmp.path().join("over");
+            materialize(&over, &dst2)?;
+            restore_into(&repo, &snap, &over, verify).map_err(|e| format!("over:{e}"))?;
+            Ok((dir_map(&fresh), dir_map(&over)))
+        })
+    });
+    match res {
+        None => Err(format!("oracle-fail:run{k}:timeout")),
+        Some(Err(e)) if e.starts_with("oracle-fail") => Err(e),
+        Some(Err(e)) => Err(format!("run{k}:{e}")),
+        Some(Ok(x)) => Ok(x),
+    }
+}
+
+/// `c13 rest <src> <dst> <verify 0|1> <run,run,…>`: the same source backed up into repositories that differ only in their
+/// pack-size settings (run tokens `seed.dpack.tpack[.pool]`, pool `0` or an installed pool of ≥ 2 workers) and restored from
+/// each of them (a) into an empty directory, (b) over the existing tree `dst` (files of the same path: absent / same bytes /
+/// same size with some other blocks / other size; trusted unread only when size AND mtime equal and `verify` is off).
+/// Oracles: both directories hold the same bytes for every pack-size setting (`…differs-across-pack-sizes`), every source file
+/// is restored with the source's bytes (`restore-differs-from-source`, `restore-over-existing-differs`; a destination file
+/// trusted by size + mtime keeps its bytes).  Observation: number / bytes of the source files and how many were trusted
+/// with other content.
+fn exec_rest(src: &str, dst: &str, verify: &str, runs: &str) -> String {
+    use crate::dispatch::c11::K;
+    let (Some(sa), Some(dv), Some(runs)) = (parse_src(src), parse_src(dst), parse_runs(runs)) else {
+        return "bad-op".into();
+    };
+    let verify = match verify {
+        "0" => false,
+        "1" => true,
+        _ => return "bad-op".into(),
+    };
+    if !rest_valid(&sa) || !rest_valid(&dv) || runs.iter().any(|r| r.repack.is_some() || !matches!(r.pool, Pool::Default | Pool::Installed(2..))) {
+        return "bad-op".into();
+    }
+    let mut results = vec![];
+    for (k, run) in runs.iter().enumerate() {
+        let threads = if let Pool::Installed(n) = run.pool { n } else { 0 };
+        match rest_run(&sa, &dv, verify, *run, threads, k) {
+            Ok(x) => results.push(x),
+            Err(e) => return e,
+        }
+    }
+    // the property proper: nothing depends on the pack-size setting
+    for (k, (fresh, over)) in results.iter().enumerate().skip(1) {
+        if *fresh != results[0].0 {
+            return format!("oracle-fail:run{k}:restore-differs-across-pack-sizes");
+        }
+        if *over != results[0].1 {
+            return format!("oracle-fail:run{k}:restore-over-existing-differs-across-pack-sizes");
+        }
+    }
+    // … and it is the source that is restored
+    let existing: BTreeMap<Vec<u8>, &SE> = dv.iter().filter(|e| e.kind == K::File).map(|e| (se_rel(e), e)).collect();
+    let (mut files, mut bytes, mut kept) = (0usize, 0usize, 0usize);
+    for (k, (fresh, over)) in results.iter().enumerate() {
+        for e in sa.iter().filter(|e| e.kind == K::File) {
+            let (p, want) = (se_rel(e), e.bytes());
+            if fresh.get(&p) != Some(&Some(want.clone())) {
+                return format!("oracle-fail:run{k}:restore-differs-from-source");
+            }
+            // size + mtime of an existing file equal and no `verify_existing`: accepted as it is, whatever it holds
+            let trusted = existing.get(&p).filter(|d| !verify && d.mtime == e.mtime && d.bytes().len() == want.len()).map(|d| d.bytes());
+            let expect = trusted.unwrap_or_else(|| want.clone());
+            if over.get(&p) != Some(&Some(expect.clone())) {
+                return format!("oracle-fail:run{k}:restore-over-existing-differs");
+            }
+            if k == 0 {
+                files += 1;
+                bytes += want.len();
+                kept += usize::from(expect != want);
+            }
+        }
+    }
+    format!("ok runs={} files={files} bytes={bytes} kept={kept}", runs.len())
+}
+
+/// A `rest` case: 2-6 files (some in a sub-directory) of 1-7 blocks drawn from a small pool of labels — blocks shared between
+/// files and repeated inside a file, multi-chunk files, blobs of different files next to each other in a pack — and an
+/// existing destination in which every file is absent / the same bytes with another mtime / the same size with some blocks
+/// replaced / accepted by size + mtime (same or other bytes) / of another size; now and then a file the snapshot lacks.
+fn gen_rest(rng: &mut Rng, stats: &mut Stats) -> String {
+    use crate::dispatch::c11::{enc_src, K};
+    let pool: Vec<u64> = {
+        let base = rng.below(30);
+        (0..rng.range(3, 9)).map(|i| base + i).collect()
+    };
+    let n = rng.range(2, 6) as usize;
+    let sub = rng.chance(1, 2);
+    let file = |path: Vec<Vec<u8>>, mtime: i64, inode: u64, content: Vec<u64>| SE { path, kind: K::File, mtime, ctime: 200, inode, content };
+    let (mut src, mut dst): (Vec<SE>, Vec<SE>) = (vec![], vec![]);
+    // walk order: the top-level files `a`.., then the directory `s` and the last m files below it
+    let m = if sub { rng.range(1, n as u64 - 1) as usize } else { 0 };
+    let names: Vec<Vec<Vec<u8>>> = [b"a", b"b", b"c", b"d", b"e", b"f"]
+        .iter()
+        .take(n)
+        .enumerate()
+        .map(|(i, x)| if i >= n - m { vec![b"s".to_vec(), x.to_vec()] } else { vec![x.to_vec()] })
+        .collect();
+    let dir_at = if m > 0 { Some(n - m) } else { None };
+    let mut src_files = vec![];
+    for (i, path) in names.iter().enumerate() {
+        let mut content: Vec<u64> = (0..rng.range(1, 7)).map(|_| *rng.pick(&pool)).collect();
+        if rng.chance(1, 4) {
+            content.push(500 + rng.below(60));
+        }
+        let mtime = 100 + rng.below(3) as i64;
+        src_files.push(file(path.clone(), mtime, 20 + i as u64, content.clone()));
+        let kind = rng.below(10);
+        stats.hit(format!("c13.rest.dst.{kind}"));
+        let other = |rng: &mut Rng, c: &[u64], all: bool| -> Vec<u64> {
+            let mut hit = false;
+            let mut v: Vec<u64> = c.iter().map(|l| if all || rng.chance(1, 2) { hit = true; if *l < 500 { l + 100 } else { l + 50 } } else { *l }).collect();
+            if !hit {
+                let j = rng.below(v.len() as u64) as usize;
+                v[j] = if v[j] < 500 { v[j] + 100 } else { v[j] + 50 };
+            }
+            v
+        };
+        match kind {
+            0 | 1 => {}
+            2 | 3 => dst.push(file(path.clone(), mtime + 1000, 0, content)),
+            4..=6 => {
+                let m = if rng.chance(1, 4) { mtime } else { mtime + 1000 + rng.below(5) as i64 };
+                dst.push(file(path.clone(), m, 0, other(rng, &content, false)));
+            }
+            7 => dst.push(file(path.clone(), mtime, 0, content)),
+            8 => {
+                let mut c = content.clone();
+                if c.len() > 1 && rng.chance(1, 2) { _ = c.pop(); } else { c.push(*rng.pick(&pool)); }
+                dst.push(file(path.clone(), if rng.chance(1, 2) { mtime } else { mtime + 7 }, 0, c));
+            }
+            _ => dst.push(file(path.clone(), mtime, 0, other(rng, &content, true))),
+        }
+    }
+    for (i, f) in src_files.into_iter().enumerate() {
+        if dir_at == Some(i) {
+            src.push(SE { path: vec![b"s".to_vec()], kind: K::Dir, mtime: 100, ctime: 200, inode: 9, content: vec![] });
+        }
+        src.push(f);
+    }
+    if rng.chance(1, 4) {
+        dst.push(file(vec![b"x".to_vec()], 50, 0, vec![*rng.pick(&pool)]));
+    }
+    let verify = rng.chance(1, 3);
+    stats.hit(format!("c13.rest.verify.{}", u8::from(verify)));
+    stats.add("c13.rest.files", n as u64);
+    // default packs (undelayed), one blob per pack, a small pack size
+    let p = |rng: &mut Rng| if rng.chance(1, 2) { "0".to_string() } else { rng.range(2, 16).to_string() };
+    let runs = format!(
+        "0.4000000.4000000.0,{}.1.1.{},{}.{}.{}.{}",
+        1 + rng.below(10_000),
+        p(rng),
+        1 + rng.below(10_000),
+        rng.pick(&[200u64, 400, 5000]),
+        rng.pick(&[1u64, 200, 4_000_000]),
+        p(rng)
+    );
+    format!("c13 rest {} {} {} {runs}", enc_src(&src), enc_src(&dst), u8::from(verify))
+}
+
+// ------------------------------------------------------------------------------------------------
 // generator
 
 fn gen_stream(rng: &mut Rng, stats: &mut Stats) -> String {
@@ -1678,6 +1952,13 @@ pub fn generate(thorough: bool, rng: &mut Rng, ops: &mut Vec<String>, stats: &mu
         let sizes = [1u64, 1, 200, 5000, 4_000_000];
         ops.push(format!("c13 order {}.{}.{}.{} {}", r.below(10_000), r.pick(&sizes), r.pick(&sizes), gen_pool(&mut r, stats), enc_src(&a)));
     }
+    // restore from repositories that differ only in the pack-size setting: into an empty directory and over a partly
+    // matching destination
+    for _ in 0..(if thorough { 150 } else { 12 }) {
+        let mut r = rng.fork();
+        stats.hit("c13.rest");
+        ops.push(gen_rest(&mut r, stats));
+    }
     // more than MAX_COUNT blobs in one command, one blob per pack, slow index writes (the 2nd slower than the 1st)
     for i in 0..(if thorough { 4 } else { 1 }) {
         let mut r = rng.fork();
@@ -1713,6 +1994,10 @@ fn budget_of(t: &[&str]) -> Option<(u64, bool)> {
             Some((2 * wd + 10 * runs.len() as u64 + 20, true))
         }
         ["chk", ms] => ms.parse::<u64>().ok().map(|_| (WD_SECS + 15, true)),
+        ["rest", src, dst, _, runs] => {
+            let (sa, dv, runs) = (parse_src(src)?, parse_src(dst)?, parse_runs(runs)?);
+            Some((2 * run_wd(&sa, Some(&dv), None) + 10 * runs.len() as u64 + 20, true))
+        }
         ["snaps", seed, n] => {
             let (_, _, wd) = parse_seed_pool(seed)?;
             let n = n.parse::<u64>().ok().filter(|n| (1..=20_000).contains(n))?;
@@ -1742,6 +2027,7 @@ pub fn exec(t: &[&str]) -> String {
             ["copy", src, runs] => exec_run_mode(src, runs, None, true),
             ["big", seed, cmd, dirs, t1, t2, k] => exec_big(seed, cmd, dirs, t1, t2, k),
             ["order", run, src] => exec_order(run, src),
+            ["rest", src, dst, verify, runs] => exec_rest(src, dst, verify, runs),
             _ => "bad-op".into(),
         }
     })
